@@ -1,6 +1,7 @@
 import ShellOp.Util
 import ShellOp.Model.Informer
 import ShellOp.Model.MonitorEnable
+import ShellOp.Model.SnapshotCache
 /-! Line-protocol suite for C01 (informer hand-over protocol). Core-only. -/
 namespace ShellOp.Drv.C01
 open ShellOp ShellOp.Util ShellOp.Informer
@@ -156,7 +157,7 @@ def mstep (d : DSt) (toks : List String) : DSt × String :=
   | "init" :: rest =>
     match (kv? "statics" rest).bind String.toNat?, (kv? "ns" rest).bind natList? with
     | some n, some nss =>
-      let m : MSt := { statics := List.replicate n false, varying := nss.map fun x => (x, false) }
+      let m : MSt := MonitorEnable.initial (List.replicate n false) nss
       ({ d with mon := m }, mdump m)
     | _, _ => (d, "bad-op")
   | ["ea-begin"] => (d, mdump d.mon)      -- the call has started; nothing done yet
@@ -190,6 +191,12 @@ def mstep (d : DSt) (toks : List String) : DSt × String :=
       | some m => ({ d with mon := m }, mdump m)
       | none => (d, "disabled")
     | none => (d, "bad-op")
+  | ["nsDel", n] =>
+    match n.toNat? with
+    | some n => match MonitorEnable.step true d.mon (.nsDel n) with
+      | some m => ({ d with mon := m }, mdump m)
+      | none => (d, "disabled")
+    | none => (d, "bad-op")
   | ["nsRead", n] =>
     match n.toNat? with
     | some n => match MonitorEnable.step true d.mon (.nsRead n) with
@@ -217,12 +224,45 @@ def stepAll (d : DSt) (toks : List String) : DSt × String :=
       if before.any hasEvent then (d, s!"false event-before-successful-synchronization runs={showStrs runs}")
       else (d, "true")
     | _, _ => (d, "bad-op")
+  | "us" :: ctxs =>
+    -- `us <binding>:<includes>:<isSync> …`: the snapshot reads one hook run makes for these binding
+    -- contexts (model of HookController.UpdateSnapshots); includes are `+`-separated, `-` = none
+    let parse := fun (t : String) => match t.splitOn ":" with
+      | [b, inc, sy] => do
+        let b ← b.toNat?
+        let inc ← if inc == "-" then some [] else (inc.splitOn "+").mapM String.toNat?
+        some (SnapshotCache.BC.mk b inc (sy == "1"))
+      | _ => none
+    match ctxs.mapM parse with
+    | some l => (d, "reads=" ++ showNats (SnapshotCache.updateSnapshots (fun _ _ => []) l).1.calls)
+    | none => (d, "bad-op")
+  | "oracle" :: "op-lock" :: rest =>
+    -- lock state seen while a hook execution was held: `binding:unlocked:syncDone` per binding.
+    -- A binding may be unlocked (its Events flow to the hook) only if a SUCCESSFUL execution that
+    -- carried that binding's own Synchronization has finished.
+    match (kv? "held" rest).map strList with
+    | some obs =>
+      let bad := obs.filter fun o => match o.splitOn ":" with
+        | [_, en, ok] => en == "1" && ok != "1"
+        | _ => true
+      if bad.isEmpty then (d, "true")
+      else (d, s!"false unlocked-before-own-synchronization={showStrs bad}")
+    | none => (d, "bad-op")
   | "oracle" :: "op-group" :: rest =>
     -- group form: the last Group execution's snapshot reflects the final matching state
     match (kv? "last" rest).bind parseCache, (kv? "final" rest).bind parseCache with
     | some last, some fin =>
       if sortCache last == sortCache fin then (d, "true")
       else (d, s!"false last-group-snapshot={showCache last} cluster={showCache fin}")
+    | _, _ => (d, "bad-op")
+  | "oracle" :: "op-group-any" :: rest =>
+    -- group form with several queues: SOME Group execution shows the final matching state of this
+    -- binding (`views` = the binding's snapshot in every execution that carried one, `|`-separated;
+    -- executions of different queues are not ordered by their start, so "the last one" means nothing)
+    match (kv? "views" rest).map (fun v => (v.splitOn "|").mapM parseCache), (kv? "final" rest).bind parseCache with
+    | some (some views), some fin =>
+      if views.any (fun v => sortCache v == sortCache fin) then (d, "true")
+      else (d, s!"false no-group-snapshot-shows-the-final-state cluster={showCache fin}")
     | _, _ => (d, "bad-op")
   | "oracle" :: "m-delivered" :: rest =>
     -- the property at monitor level: a change made in EVERY namespace of the monitor after the
